@@ -134,13 +134,18 @@ fn check_simp(c: &SimpCase, obs: &mut Obs) -> Result<(), String> {
         }
     };
     let promised = c.source == "ptc" || c.source == "ptc2";
-    let perm = perm_from_swaps(input.size, &c.swaps);
-    let renum = input.renumbered(&perm);
-    // the routine under test, on both numberings; on the inputs the euclidicity test feeds in it must not panic
+    // three renumberings derived from the case's swap list
+    let renums: Vec<DS> = (0..3u32)
+        .map(|j| {
+            let sw: Vec<(u32, u32)> = c.swaps.iter().map(|&(a, b)| (a.wrapping_add(j.wrapping_mul(0x9e37_79b9)).rotate_left(7 * j), b.wrapping_mul(2 * j + 1).wrapping_add(j.wrapping_mul(0x85eb_ca6b)))).collect();
+            input.renumbered(&perm_from_swaps(input.size, &sw))
+        })
+        .collect();
+    // the routine under test, on all numberings; on the inputs the euclidicity test feeds in it must not panic
     let run = |d: &DS| guarded(|| simplify(&d.to_partial_dset()).map(|o| DS::from_dsym(&o)));
-    let (r1, r2, r3) = (run(&input), run(&renum), run(&input));
+    let results = vec![("input", run(&input)), ("renumbered input", run(&renums[0])), ("input, second evaluation", run(&input)), ("renumbered input (2)", run(&renums[1])), ("renumbered input (3)", run(&renums[2]))];
     let mut outs = vec![];
-    for (which, r) in [("input", r1), ("renumbered input", r2), ("input, second evaluation", r3)] {
+    for (which, r) in results {
         match r {
             Err(p) => {
                 if promised {
@@ -199,7 +204,7 @@ fn check_simp(c: &SimpCase, obs: &mut Obs) -> Result<(), String> {
     }
     if !c.known.is_empty() {
         ensure!(keys.iter().all(|k| k.is_some()), "simplification of the pseudo-toroidal cover of the euclidean symbol {} is not connected / empty", x.short());
-        ensure!(keys[0] == keys[1] && keys[0] == keys[2], "canonical minimal image of the simplified cover of {} depends on the numbering or on the evaluation", x.short());
+        ensure!(keys.iter().all(|k| *k == keys[0]), "canonical minimal image of the simplified cover of {} depends on the numbering or on the evaluation", x.short());
         obs.class("known-euclidean corpus");
     }
     let connected_nontrivial = outs.iter().any(|(_, o)| o.as_ref().map_or(false, |o| o.is_connected() && own_fundamental_group(o).pres.nr_gens > 0));
@@ -212,7 +217,7 @@ fn check_simp(c: &SimpCase, obs: &mut Obs) -> Result<(), String> {
 
 pub const SUB_SIMP: Sub<SimpCase> = Sub {
     name: "simplify",
-    rule: "(3D symbol, route to a branch-free oriented cover: pseudo-toroidal cover / branch-free cover / finite universal cover, renumbering): whenever simplify returns a D-set it is complete, branch-free, every tile and vertex figure an oriented sphere (own count); on pseudo-toroidal covers no panic, a connected result has one tile, one vertex and no degree-2 edge / face / tile; on the known-euclidean corpus and on finite universal covers a connected result keeps H1 and the index <= 3 subgroup profile; on the known-euclidean corpus the canonical minimal image is the same for the renumbered input and for a second evaluation; non-trivial = input >= 96 chambers or connected result with non-trivial group",
+    rule: "(3D symbol, route to a branch-free oriented cover: pseudo-toroidal cover / branch-free cover / finite universal cover, renumbering): whenever simplify returns a D-set it is complete, branch-free, every tile and vertex figure an oriented sphere (own count); on pseudo-toroidal covers no panic, a connected result has one tile, one vertex and no degree-2 edge / face / tile; on the known-euclidean corpus and on finite universal covers a connected result keeps H1 and the index <= 3 subgroup profile; on the known-euclidean corpus the canonical minimal image is the same for three renumbered copies of the input and for a second evaluation; non-trivial = input >= 96 chambers or connected result with non-trivial group",
     check: check_simp,
     panic_discards: &["Reached coset table limit"],
     journal: false,
@@ -288,7 +293,7 @@ pub fn run(ctx: &mut Ctx) {
                 c
             })
         },
-        t.pick(400, 3_000),
+        t.pick(3_000, 40_000),
     );
 }
 
